@@ -48,6 +48,8 @@ func (sp ByteSlicePool) Get(capacity int) []byte {
 		return make([]byte, 0, capacity)
 	}
 	buf := bp.([]byte)
+	// Clear the whole backing array, not only the length the slice had when it was put back: the new owner can reach every byte up to the capacity (for example with Resize)
+	buf = buf[:cap(buf)]
 	// This will be optimized by the compiler
 	for i := range buf {
 		buf[i] = 0
